@@ -186,6 +186,45 @@ func checkC32(r *Run) {
 			}
 		}
 	}
+	// Shutdown closes the listener it finds; when it ran before Run stored the listener it found none, so Run
+	// re-checks quit after storing the listener and before it blocks in Accept (otherwise Accept never returns
+	// and Shutdown waits on pool.done for ever)
+	if fn := r.fn("C32-R4", "daemon/gnet.ConnectionPool.Run"); fn != nil {
+		ff := r.P.Facts(fn)
+		var storeBlk, acceptBlk *ssa.BasicBlock
+		var quitSel []*ssa.BasicBlock
+		for _, b := range fn.Blocks {
+			for _, in := range b.Instrs {
+				switch x := in.(type) {
+				case *ssa.Store:
+					if strings.HasSuffix(ff.Term(x.Addr), ".listener") && !isNilConst(x.Val) {
+						storeBlk = b
+					}
+				case *ssa.Select:
+					for _, st := range x.States {
+						if st.Dir == types.RecvOnly && strings.HasSuffix(ff.Term(st.Chan), ".quit") {
+							quitSel = append(quitSel, b)
+						}
+					}
+				case ssa.CallInstruction:
+					if x.Common().IsInvoke() && x.Common().Method.Name() == "Accept" {
+						acceptBlk = b
+					}
+				}
+			}
+		}
+		r.Check("C32-R4", "ConnectionPool.Run stores the listener and accepts on it", r.P.Pos(fn.Pos()), storeBlk != nil && acceptBlk != nil, "")
+		if storeBlk != nil && acceptBlk != nil {
+			ok := false
+			for _, sb := range quitSel {
+				if (storeBlk == sb || storeBlk.Dominates(sb)) && sb != acceptBlk && sb.Dominates(acceptBlk) {
+					ok = true
+				}
+			}
+			r.Check("C32-R4", "ConnectionPool.Run re-checks quit between storing the listener and the first Accept", r.P.Pos(acceptBlk.Instrs[0].Pos()), ok,
+				"a Shutdown that ran before the listener was stored closed nothing: Accept blocks for ever, pool.done is never closed and Shutdown does not terminate")
+		}
+	}
 	// done / strandDone are closed by a defer in the entry block of Run / processStrand
 	for _, c := range []struct{ fn, ch string }{{"daemon/gnet.ConnectionPool.Run", "pool.done"}, {"daemon/gnet.ConnectionPool.processStrand", "pool.strandDone"}} {
 		fn := r.fn("C32-R4", c.fn)
